@@ -59,6 +59,14 @@ CLAIMED = {
              'published Z80 v3 and ZX-State layouts read the same values from the bytes (so the two formats agree). snapshot.poke changes exactly the addressed cell (symbolic address/value/page, operators = ^ +).',
         note='zlib is an opaque invertible stub; bytes/bytearray are list-backed stand-ins; numeral tokens abstract format()/int(). RAM contents in the header checks are zero (RAM coding is the RLE part). Outside: SNA, --move/--patch, file I/O, command-line parsing.',
         design='4 (C09), 3.3', technique=TECH + '; reference decoders from the published formats'),
+    'C01': dict(
+        text='Block level: for ~100 control-file shapes (every block type, sub-block types B C S T W, sublength lists with b c d h m n prefixes, * multipliers, L loops, M, ignored blocks, statements cut short by a sub-block end, '
+             'code fragments with pinned opcodes incl. variants and prefixes) over a window of symbolic memory, the real CtlParser and the real snaskool.Disassembly build the entries; per statement the skool2bin rule (@bytes list if present, '
+             'else the real assembler) is applied in file order and z3 shows every address of every non-ignored block gets back its original byte, for hex/decimal, case, DefbSize/DefmSize/DefwSize and Opcodes settings. '
+             'Together with C02 (every instruction and data statement, every operand value/base/address) this covers the arithmetic of the property.',
+        note='Outside: the textual skool file itself (SkoolWriter -> text -> skool2bin line reader, line width), RST-argument handlers, whole 64K images, ctl text beyond the corpus. Character-based shapes use 2 symbolic bytes (the rest fixed to '
+             'characters that exercise escaping); DEFS fill value ranges over 9 representative values.',
+        design='4 (C01)', technique=TECH + '; corpus of control-file shapes over symbolic memory'),
 }
 NOT_APPLICABLE = {
     'C16': 'HTML link/anchor consistency is a property of generated document structure (which files and id= strings exist); there is no bounded arithmetic/data path to make symbolic - a solver encoding would be a copy of the writer (DESIGN.md section 5).',
